@@ -12,5 +12,5 @@ MCMore == { C("fifo", 3, 0, 3), C("bulkhead", 2, 1, 1), C("bulkhead", 1, 0, 1), 
 MCWide == { C("fifo", 2, 0, 2), C("rwlock", 2, 0, 1), C("bulkhead", 1, 1, 1) }
 MCFour == { C("fifo", 2, 0, 2), C("rwlock", 4, 0, 1), C("rwlock", 2, 0, 1), C("bulkhead", 2, 1, 1) }
 MCSens == { C("fifo", 2, 0, 2) }
-MCLive == { C("fifo", 1, 0, 1), C("bulkhead", 1, 1, 1), C("rwlock", 2, 0, 1) }
+MCLive == { C("fifo", 1, 0, 1), C("bulkhead", 1, 1, 1) }
 ===========================================================================
